@@ -504,6 +504,70 @@ def run_leaf_falsy(job, acc):
             f'{val!r} (updater set): the node holds {got!r}', case))
 
 
+def _file_batch(current, update):
+    """A user updater that files every update it is handed as ONE batch."""
+    return list(current) + [update]
+
+
+worlds.probes._register(worlds.probes.updater_registry, 'vmc_file_batch',
+                        _file_batch)
+
+
+def run_two_lists(job, acc):
+    """Two ports of one process (a plain one and a _path-renamed one, or
+    two plain ones) reach ONE variable and each returns a LIST: the
+    variable's updater is called once per port with that port's list."""
+    _, wiring, updater, place = job
+    case = {'shape': 'two-lists', 'job': job}
+    acc.case(key=job, outcome='two-lists')
+    processes, topology = {}, {}
+    var = {'_default': [], '_updater': updater, '_emit': True}
+    put(processes, tuple(place) + ('proc',), {
+        'cls': 'P', 'pid': 'proc', 'ts': 1,
+        'schema': {'p0': {'x': dict(var)}, 'p1': {'y': dict(var)}},
+        'update': {'p0': {'x': {'$lit': ['from a']}},
+                   'p1': {'y': {'$lit': ['from b']}}}})
+    topo = {'plain+renamed': {'p0': ('log',),
+                              'p1': {'_path': ('log',), 'y': ('x',)}},
+            'two-renamed': {'p0': {'_path': ('log',), 'x': ('z',)},
+                            'p1': {'_path': ('log',), 'y': ('z',)}}}[wiring]
+    put(topology, tuple(place) + ('proc',), topo)
+    ex = worlds.execute({'processes': processes, 'topology': topology,
+                         'state': {}, 'script': [('update', 1)]})
+    if ex.error:
+        acc.violate(fw.violation(
+            'C06.crash', f'two-lists:{type(ex.error[2]).__name__}',
+            f'{job}: unexpected {ex.error[2]!r}', case))
+        return
+    tree = worlds.probes.pure(ex.engine.state.get_value())
+    leaf = 'x' if wiring == 'plain+renamed' else 'z'
+    got = rr.get_in(tree, tuple(place) + ('log', leaf))
+    if updater == 'set':
+        ok = got in (['from a'], ['from b'])
+        want = "['from a'] or ['from b']"
+    elif updater == 'vmc_file_batch':
+        ok = sorted(map(tuple, got or [])) == [('from a',), ('from b',)] \
+            if isinstance(got, list) and all(
+                isinstance(g, list) for g in got) else False
+        want = "[['from a'], ['from b']] in either order"
+    else:
+        ok = sorted(got or []) == ['from a', 'from b']
+        want = "['from a', 'from b'] in either order"
+    if not ok:
+        acc.violate(fw.violation(
+            'C06.write', 'list-updates-of-two-ports-fused-or-lost',
+            f'ports wired {wiring} at {place}, updater {updater}: each '
+            f'port returned a one-element list for ONE variable; it holds '
+            f'{got!r}, expected {want}', case))
+
+
+def two_lists_jobs():
+    return [('two-lists', w, u, tuple(pl))
+            for w in ('plain+renamed', 'two-renamed')
+            for u in ('set', 'vmc_file_batch', 'accumulate')
+            for pl in shapes.PLACEMENTS]
+
+
 def leaf_falsy_jobs():
     out = []
     kinds = {k: (mk, topos) for k, mk, topos in shapes.port_kinds()}
@@ -652,6 +716,9 @@ def run_job(shape, acc):
     if isinstance(shape, tuple) and shape[0] == 'leaf-falsy':
         run_leaf_falsy(shape, acc)
         return
+    if isinstance(shape, tuple) and shape[0] == 'two-lists':
+        run_two_lists(shape, acc)
+        return
     if isinstance(shape, tuple) and shape[0] == 'rewire':
         run_rewire(shape, acc)
         return
@@ -667,7 +734,8 @@ def run_job(shape, acc):
 def run(ctx):
     return ctx.map(run_job, all_shapes(ctx) + ['replaced-store'] +
                    alias_jobs() + rewire_jobs() + leaf_falsy_jobs() +
-                   shared_default_jobs() + layered_jobs())
+                   shared_default_jobs() + layered_jobs() +
+                   two_lists_jobs())
 
 
 def replay(case):
@@ -676,6 +744,9 @@ def replay(case):
         run_layered(tuple(case['job']), acc)
     elif case['shape'] == 'shared-default':
         run_shared_default(tuple(case['job']), acc)
+    elif case['shape'] == 'two-lists':
+        j = case['job']
+        run_two_lists((j[0], j[1], j[2], tuple(j[3])), acc)
     elif case['shape'] == 'leaf-falsy':
         j = case['job']
         run_leaf_falsy((j[0], j[1], tuple(j[2]), j[3]), acc)
@@ -694,3 +765,6 @@ def replay(case):
 
 RULE += (
     " Leaf-falsy family: a leaf port with the set updater returns 0, False, '', [], {}, 0.0, None for every leaf topology and placement. The rewire family includes a twin process given THE SAME wiring dictionary object, which must stay wired as it was.")
+
+RULE += (
+    ' Two-lists family: two ports of one process (plain + _path-renamed, or both renamed) reach ONE variable and each returns a one-element list, under set / accumulate / a user updater that files every update as one batch: the updater is called once per port with that port\'s list.')
